@@ -1,0 +1,27 @@
+//go:build verif
+
+package ssh1
+
+import (
+	"bytes"
+	"math/big"
+)
+
+// Verification hooks for property C02 (see /verif). Not compiled without the "verif" build tag.
+
+// VerifReadMPInt runs readMPInt on data and reports the value and the number of bytes left.
+func VerifReadMPInt(data []byte) (*big.Int, int, error) {
+	r := bytes.NewReader(data)
+	n, err := readMPInt(r)
+	return n, r.Len(), err
+}
+
+// VerifReadString runs readString on data and reports the value and the number of bytes left.
+func VerifReadString(data []byte) (string, int, error) {
+	r := bytes.NewReader(data)
+	s, err := readString(r)
+	return s, r.Len(), err
+}
+
+// VerifDecrypt is the 3DES layer applied to the private half of an encrypted key.
+func VerifDecrypt(ciphertext, password []byte) []byte { return decrypt(ciphertext, password) }
